@@ -194,10 +194,11 @@ def run_seq(ctx, case):
         if a[2] != f[2] and ("exc" in (f[2][:1] + a[2][:1])):
             ctx.cls("not-judged:internal-exception(C01)")
         elif a[2] != f[2]:
-            def names_of(t):
-                import re
-                return sorted(re.findall(r"\('name', '([^']*)'\)", " ".join(map(str, t))))
-            kind = "same-names-different-location" if names_of(a[2]) == names_of(f[2]) and a[2][0] != "exc" and f[2][0] != "exc" else "different-results"
+            kind = diff_kind(a[2], f[2])
+            if kind.startswith("fields=") and set(kind[7:].split("+")) <= {"line", "column", "module_path", "description"}:
+                kind = "location"          # same names, reported at another place (stub vs module)
+            elif kind not in ("order",) and not kind.startswith("fields="):
+                kind = "different-results"
             devs.append(("answer-depends-on-query-history:%s:%s" % (a[0], kind), "%s at %s in %s: after history %s -> %s ; fresh Script -> %s" % (
                 a[0], a[1], case["src"]["origin"], [(b[0], b[1]) for b in between], str(a[2])[:200], str(f[2])[:200])))
     ctx.sample({"origin": case["src"]["origin"], "pool": [(f[0], f[1]) for f in first], "between": [(b[0], b[1], "raised" if b[2] and b[2][0] == "exc" else "ok") for b in between]}, limit=3)
